@@ -14,7 +14,7 @@ RULE = ("one evaluation = one history: up to 6 requests of random kinds (ping, l
         "out-of-order/duplicate/unknown delivery; distinct by (kinds, deliveries) hash")
 ASSUMPTIONS = ["reply shapes are the documented result shapes of vf/catalogue.py with id/from matched to the request",
                "only kinds for which the stack defines a reply entity are issued"]
-REQUIRED = ["concurrent_request_runs", "concurrent_requests_ok", "concurrent_yields", "internal:group-keyfetch", "internal_group_ok", "group_keyfetch_partial", "histories", "callbacks_that_raised", "reissued_in_callback", "requests", "deliveries", "predicted_callbacks", "observed_callbacks", "delivery:result", "delivery:error", "delivery:duplicate",
+REQUIRED = ["twin_requests", "twin_requests_while_first_outstanding", "concurrent_request_runs", "concurrent_requests_ok", "concurrent_yields", "internal:group-keyfetch", "internal_group_ok", "group_keyfetch_partial", "histories", "callbacks_that_raised", "reissued_in_callback", "requests", "deliveries", "predicted_callbacks", "observed_callbacks", "delivery:result", "delivery:error", "delivery:duplicate",
             "delivery:unknown-id", "delivery:non-reply", "delivery:foreign", "internal:key-fetch", "internal:key-upload"]
 TIMEOUT = {"quick": 600, "thorough": 7200}
 
@@ -112,9 +112,23 @@ def one_history(acc, seed, tag, kits):
     w = {"tag": tag, "enc": enc, "requests": [], "deliveries": []}
     ok = True
 
-    def issue(k):
-        ent = kinds[k](r)
-        rec = {"uid": len(reqs), "kind": k, "entity": ent, "id": ent.getId()}
+    def issue(k, twin_of=None):
+        import random as _random
+        state = r.getstate() if twin_of is None else twin_of["rstate"]
+        if twin_of is None:
+            ent = kinds[k](r)
+        else:
+            # the same request once more (same target, same arguments, a new id) while the first may still be unanswered, or
+            # after it was answered: two requests, two callbacks
+            r2 = _random.Random()
+            r2.setstate(state)
+            ent = kinds[k](r2)
+            if ent.getId() in pending or any(x["id"] == ent.getId() for x in reqs):
+                return True
+            acc.count("twin_requests")
+            if twin_of["id"] in pending:
+                acc.count("twin_requests_while_first_outstanding")
+        rec = {"uid": len(reqs), "kind": k, "entity": ent, "id": ent.getId(), "rstate": state}
 
         # what the application does inside its callbacks: nothing, raise, or (on error) issue the same request again
         rec["behaviour"] = r.choice(["plain", "plain", "plain", "raise", "retry-on-error"])
@@ -148,6 +162,11 @@ def one_history(acc, seed, tag, kits):
         return True
 
     for _ in range(nreq):
+        if reqs and r.random() < 0.25:
+            t0 = r.choice(reqs)
+            if not issue(t0["kind"], twin_of=t0):
+                return
+            continue
         if not issue(r.choice(sorted(kinds))):
             return
     # a request of another stack instance (same id space is process-wide, ids differ; its reply must not fire anything here)
@@ -166,7 +185,8 @@ def one_history(acc, seed, tag, kits):
             choices.append("non-reply")
         # issue more requests in between sometimes
         if r.random() < 0.15 and len(reqs) < 8:
-            if not issue(r.choice(sorted(kinds))):
+            t0 = r.choice(reqs) if (reqs and r.random() < 0.4) else None
+            if not (issue(t0["kind"], twin_of=t0) if t0 else issue(r.choice(sorted(kinds)))):
                 return
             max_out = max(max_out, len(pending))
         d = r.choice(choices)
